@@ -511,5 +511,5 @@ MANIFEST = dict(
          'no-hit default (context for several output clauses), contexts keyed by component names, no index panic on well-shaped tables. '
          'The model is tied to decision_table.rs / builders.rs by evaluating thousands of generated tables through ModelEvaluator and comparing with the model evaluated by vm_compute.',
     note='Hypotheses of the refinement: well-shaped table (>=1 output clause, one entry per clause in every rule, several outputs named distinctly) and well-typed tuple '
-         '(non-null inputs, literals of an entry have the kind of the input; under C> no null output). Outside them (null inputs, ill-typed literals) only code = ImplModel is checked. '
+         '(non-null inputs, literals of an entry have the kind of the input). Outside them (null inputs, ill-typed literals) only code = ImplModel is checked. '
          'Values are abstract (integers, strings, booleans); input expressions are plain names; FEEL parsing of entries is sampled, not proved. Three defects of the pinned commit were repaired (fix: commits) and are refuted for dt_impl_orig.')
